@@ -182,8 +182,9 @@ let () =
         (* ---- implementation vs specification ---- *)
         if witness then begin
           if o_ents <> o_spec then
-            Printf.printf "FINDING-WITNESS case=%d seed=%s step=%d stale-handle: every call returned nil, the batch decodes to %s instead of %s (kvs [%s], len(buf) %d)\n"
-              !cur_id !cur_seed !step_no o_ents o_spec o_kvs o_len
+            add "spec:batchbuf-stale-handle"
+              (Printf.sprintf "stale-handle witness: every call returned nil, the batch decodes to %s instead of %s (kvs [%s], len(buf) %d)"
+                 o_ents o_spec o_kvs o_len)
         end else if o_ents <> o_spec then
           add (if label = "sort" || label = "find" then "spec:batchbuf-sort" else "spec:batchbuf-entries")
             (Printf.sprintf "decoded %s, operations that returned nil %s" o_ents o_spec);
